@@ -214,6 +214,7 @@ def run(ctx):
     part.merge(calcseq.explore(ctx, ['max_rate_t3']))
     check_long_linear(part)
     part.merge(core.fan_out(ctx, _limit_chunk, ratio_rows()))
+    part.merge(core.fan_out(ctx, _harvest_chunk, core.split(harvested_tick_rows(), 32)))
     cnt = part.counters
     coverage = {
         "over_limit_states": cnt.get("over_limit_states", 0),
@@ -238,6 +239,52 @@ def run(ctx):
                    "|accel_k| <= 2^31-1", "exhaustive over the stated lattice only"]
     coverage["rule"] += ('; rows whose turning point lies k/|jerk| inside the window edge for |jerk| = 1e8..6e8, T = 4..12, start rate centring the move in the 32-bit range')
     return {"part": part, "coverage": coverage, "assumptions": assumptions}
+
+
+def harvested_tick_rows():
+    """Moves whose length is a number written in ebb_calc's own source (c - 1 .. c + 2, 2c + 1
+    for every constant c from 1000 to two million - a move length at which the code changes
+    method), with small jerks (1..7) and an acceleration that puts the turning point inside the
+    move at every fractional position: [(rate, accel, jerk, [T ...])].  Two fixed lengths (4096,
+    100000) keep the family populated when the source names none."""
+    ebb_calc = _lib()
+    rows = []
+    harvested = set(core.harvest_ints(ebb_calc, low=1000, high=2000000))
+    for const in sorted(harvested | {4096, 100000}):
+        lengths = sorted({const - 1, const, const + 1, const + 2, const + 1000, 2 * const + 1})
+        for jerk_mag in ((1, 2, 3, 6, 7) if const in harvested else (1, 3)):
+            for where in (0.25, 0.5, 0.75):
+                base = int(jerk_mag * const * where)
+                for extra in range(0, 2 * jerk_mag + 1):
+                    accel_mag = base + extra
+                    rise = accel_mag * accel_mag // (2 * jerk_mag)
+                    if rise >= (1 << 32) - 10:
+                        continue
+                    for sign in (1, -1):
+                        accel, jerk = sign * accel_mag, -sign * jerk_mag
+                        rate = -sign * (rise // 2)          # centre the parabola in range
+                        rows.append((rate, accel, jerk, lengths))
+    return rows
+
+
+def _harvest_chunk(rows):
+    part = core.Part()
+    for rate, accel, jerk, lengths in rows:
+        wanted = set(lengths)
+        peak, first = -1, None
+        for k, rate_k, _a, _t in t3_states(rate, accel, jerk, 0, max(lengths)):
+            mag = abs(rate_k)
+            first = mag if first is None else first
+            peak = max(peak, mag)
+            if k in wanted:
+                part.count("states")
+                part.count("harvested_length_states")
+                for clause, msg in check_state(rate, accel, jerk, k, first, mag, peak):
+                    part.violation(f"{clause}:{rate},{accel},{jerk},{k}", msg,
+                                   {"kind": "peak", "rate": rate, "accel": accel, "jerk": jerk,
+                                    "ticks": k})
+        part.count("rows")
+    return part
 
 
 def long_linear_rows():
